@@ -1264,7 +1264,11 @@ void AbstractDOMParser::XMLDecl(const   XMLCh* const version
                                 , const XMLCh* const actualEncStr)
 {
     fDocument->setXmlStandalone(XMLString::equals(XMLUni::fgYesString, standalone));
-    fDocument->setXmlVersion(version);
+    // a version number 1.x other than 1.1 is processed as XML 1.0 by the scanner
+    if (version && *version && !XMLString::equals(version, XMLUni::fgVersion1_1))
+        fDocument->setXmlVersion(XMLUni::fgVersion1_0);
+    else
+        fDocument->setXmlVersion(version);
     fDocument->setXmlEncoding(encoding);
     fDocument->setInputEncoding(actualEncStr);
 }
